@@ -223,7 +223,31 @@ FamAliasTri == Prod4(<<"MODMUL", "MODPOW", "WITHIN">>, IntLits(AliasInts3), IntL
                                                          <<x, y, z>>, 0))
 FamAlias == FamAliasUn \o FamAliasBin \o FamAliasTri
 
-AllCases == FamAlias \o FamUn \o FamBin \o FamBinMixed \o FamBinStr \o FamShift \o FamPow \o FamTri \o FamModPow \o FamModPowBig \o FamTriMixed \o FamConv
+(* byte strings are values too: an instruction that builds a Buffer out of byte string / buffer operands gives a NEW item;
+   writing into it (SETITEM, REVERSEITEMS) must leave the operands' other copies - and a literal of the script - as they
+   were.  Operands include the empty string on either side (where nothing needs copying).  Exhaustive in every tier. *)
+AliasStrs == << LB(<<97, 98, 99>>), LBuf(<<97, 98, 99>>), LB(<<>>), LBuf(<<>>), LB(<<1>>) >>
+WriteInto == << <<Op("DUP"), Op("PUSH0"), Op("PUSH16"), Op("SETITEM")>>, <<Op("DUP"), Op("REVERSEITEMS")>> >>
+FamAliasStr ==
+    Prod3(AliasStrs, AliasStrs, WriteInto, LAMBDA x, y, w, i, j, l : Case("aliasstr", <<Op("OVER"), Op("OVER"), Op("CAT")>> \o w, <<x, y>>, 0))
+    \o Prod3(<<"LEFT", "RIGHT">>, AliasStrs, WriteInto, LAMBDA o, x, w, i, j, l : Case("aliasstr", <<Op("DUP"), Op("DUP"), Op("SIZE"), Op(o)>> \o w, <<x>>, 0))
+    \o Prod2(AliasStrs, WriteInto, LAMBDA x, w, i, j : Case("aliasstr", <<Op("DUP"), Op("PUSH0"), Op("OVER"), Op("SIZE"), Op("SUBSTR")>> \o w, <<x>>, 0))
+    \o Prod2(AliasStrs, WriteInto, LAMBDA x, w, i, j : Case("aliasstr", <<Op("DUP"), [op |-> "CONVERT", ty |-> TBuffer]>> \o w, <<x>>, 0))
+    \o Prod2(WriteInto, <<1, 2>>, LAMBDA w, k, i, j :      \* the operand is a literal of the script, pushed twice
+              Case("aliasstr", <<[op |-> "PUSHDATA1", b |-> <<97, 98, 99>>], [op |-> "PUSHDATA1", b |-> <<>>]>> \o (IF k = 1 THEN <<>> ELSE <<Op("SWAP")>>)
+                               \o <<Op("CAT")>> \o w \o <<[op |-> "PUSHDATA1", b |-> <<97, 98, 99>>]>>, <<>>, 0))
+
+(* a map after REMOVE: every keyed access to the entries that stay (those inserted after the removed one move up) *)
+M3 == LMap(<<LK(1), LK(2), LK(3)>>, <<LK(11), LK(12), LK(13)>>)
+M3s == LMap(<<LB(<<107>>), LK(2), LBool(TRUE), LB(<<1, 0>>)>>, <<LK(11), LK(12), LK(13), LK(14)>>)
+ThenOps == << <<Op("PICKITEM")>>, <<Op("HASKEY")>>, <<Op("PUSH9"), Op("SETITEM"), Op("DUP"), Op("VALUES")>>, <<Op("REMOVE"), Op("DUP"), Op("KEYS")>> >>
+FamRemoveThen ==
+    Prod3(<<LK(1), LK(2), LK(3)>>, <<LK(1), LK(2), LK(3), LK(4)>>, ThenOps, LAMBDA k1, k2, t, i, j, l :
+          Case("removethen", <<Op("PUSH2"), Op("PICK"), Op("PUSH2"), Op("PICK"), Op("REMOVE"), Op("PUSH2"), Op("PICK"), Op("SWAP")>> \o t, <<M3, k1, k2>>, 0))
+    \o Prod3(<<LB(<<107>>), LK(2), LBool(TRUE), LB(<<1, 0>>)>>, <<LB(<<107>>), LK(2), LBool(TRUE), LB(<<1, 0>>)>>, ThenOps, LAMBDA k1, k2, t, i, j, l :
+          Case("removethen", <<Op("PUSH2"), Op("PICK"), Op("PUSH2"), Op("PICK"), Op("REMOVE"), Op("PUSH2"), Op("PICK"), Op("SWAP")>> \o t, <<M3s, k1, k2>>, 0))
+
+AllCases == FamAlias \o FamAliasStr \o FamRemoveThen \o FamUn \o FamBin \o FamBinMixed \o FamBinStr \o FamShift \o FamPow \o FamTri \o FamModPow \o FamModPowBig \o FamTriMixed \o FamConv
             \o FamNewArrayT \o FamPushInt \o FamConst \o FamPushData \o FamStack0 \o FamStackN \o FamSlot
             \o FamNewBuffer \o FamCat \o FamSubstr \o FamLeftRight \o FamSpliceLong \o FamMemCpy
             \o FamKeyed \o FamRemove \o FamSetItem \o FamAppend \o FamMutate \o FamIdentity
